@@ -217,68 +217,124 @@ func c01xEdgeCond(pred, succ *ssa.BasicBlock, e *fw.SymEnv, desc string, truth b
 // ---------------------------------------------------------------------------
 // C01.multi
 
-// c01TotalEnd: v is the logical end of MultiReader m: phi{0 | m.readerEnds[len(m.readers|m.readerEnds)-1]}
-// with the element arm taken only when the length is > 0.
-func c01TotalEnd(v ssa.Value, m ssa.Value) bool {
-	ph, ok := v.(*ssa.Phi)
-	if !ok || len(ph.Edges) != 2 {
-		return false
-	}
-	zero, elem := false, false
-	for i, ed := range ph.Edges {
-		if c01xIsConst(ed, 0) {
-			zero = true
-			continue
-		}
-		sl, idx, ok := c01xElemLoad(ed)
-		if !ok || !c01xLoadOfField(sl, m, "readerEnds") {
+// c01LenGuard: block b is only reached with len(m.readers) (or len(m.readerEnds)) > 0 when nonEmpty, == 0 otherwise.
+func c01LenGuard(b *ssa.BasicBlock, m ssa.Value, nonEmpty bool) bool {
+	return c01xHasGuard(b, func(cond ssa.Value, truth bool) bool {
+		c, ok := cond.(*ssa.BinOp)
+		if !ok {
 			return false
 		}
-		// idx = len(m.readers) - 1  or len(m.readerEnds) - 1
-		bo, ok := c01xStrip(idx).(*ssa.BinOp)
-		if !ok || bo.Op != token.SUB || !c01xIsConst(bo.Y, 1) {
+		l, isLen := c01xLenOf(c.X)
+		if !isLen || !(c01xLoadOfField(l, m, "readers") || c01xLoadOfField(l, m, "readerEnds")) {
 			return false
 		}
-		lx, ok := c01xLenOf(bo.X)
-		if !ok || !(c01xLoadOfField(lx, m, "readers") || c01xLoadOfField(lx, m, "readerEnds")) {
-			return false
+		pos := (c.Op == token.GTR && c01xIsConst(c.Y, 0) && truth) || (c.Op == token.NEQ && c01xIsConst(c.Y, 0) && truth) ||
+			(c.Op == token.EQL && c01xIsConst(c.Y, 0) && !truth) || (c.Op == token.GEQ && c01xIsConst(c.Y, 1) && truth) ||
+			(c.Op == token.LEQ && c01xIsConst(c.Y, 0) && !truth) || (c.Op == token.LSS && c01xIsConst(c.Y, 1) && !truth)
+		neg := (c.Op == token.GTR && c01xIsConst(c.Y, 0) && !truth) || (c.Op == token.NEQ && c01xIsConst(c.Y, 0) && !truth) ||
+			(c.Op == token.EQL && c01xIsConst(c.Y, 0) && truth) || (c.Op == token.GEQ && c01xIsConst(c.Y, 1) && !truth) ||
+			(c.Op == token.LEQ && c01xIsConst(c.Y, 0) && truth) || (c.Op == token.LSS && c01xIsConst(c.Y, 1) && truth)
+		if nonEmpty {
+			return pos
 		}
-		// guarded by len(...) > 0
-		pred := ph.Block().Preds[i]
-		okG := false
-		for _, b := range []*ssa.BasicBlock{pred, ed.(ssa.Instruction).Block()} {
-			if c01xHasGuard(b, func(cond ssa.Value, truth bool) bool {
-				c, ok := cond.(*ssa.BinOp)
-				if !ok {
-					return false
-				}
-				l, isLen := c01xLenOf(c.X)
-				if !isLen || !(c01xLoadOfField(l, m, "readers") || c01xLoadOfField(l, m, "readerEnds")) {
-					return false
-				}
-				return (c.Op == token.GTR && c01xIsConst(c.Y, 0) && truth) || (c.Op == token.NEQ && c01xIsConst(c.Y, 0) && truth) ||
-					(c.Op == token.EQL && c01xIsConst(c.Y, 0) && !truth) || (c.Op == token.GEQ && c01xIsConst(c.Y, 1) && truth)
-			}) {
-				okG = true
-			}
-		}
-		if !okG {
-			return false
-		}
-		elem = true
-	}
-	return zero && elem
+		return neg
+	})
 }
 
-// c01FindTotalEnd returns the values of fn that are the total end of receiver m.
+// c01LastEnd: v is m.readerEnds[len(m.readers|m.readerEnds)-1].
+func c01LastEnd(v ssa.Value, m ssa.Value) bool {
+	sl, idx, ok := c01xElemLoad(v)
+	if !ok || !c01xLoadOfField(sl, m, "readerEnds") {
+		return false
+	}
+	bo, ok := c01xStrip(idx).(*ssa.BinOp)
+	if !ok || bo.Op != token.SUB || !c01xIsConst(bo.Y, 1) {
+		return false
+	}
+	lx, ok := c01xLenOf(bo.X)
+	return ok && (c01xLoadOfField(lx, m, "readers") || c01xLoadOfField(lx, m, "readerEnds"))
+}
+
+// c01TotalEnd: v is the logical end of MultiReader m: readerEnds[last] when there are readers, 0 otherwise.
+// Accepted shapes: the phi{0 | readerEnds[last]} of "var end; if len > 0 { end = ... }", or a call of a helper
+// method on m all of whose returns are that value (a phi as above, or 0 / readerEnds[last] returned under the
+// matching length test).
+func c01TotalEnd(v ssa.Value, m ssa.Value) bool {
+	switch x := v.(type) {
+	case *ssa.Phi:
+		if len(x.Edges) != 2 {
+			return false
+		}
+		zero, elem := false, false
+		for i, ed := range x.Edges {
+			if c01xIsConst(ed, 0) {
+				zero = true
+				continue
+			}
+			if !c01LastEnd(ed, m) {
+				return false
+			}
+			pred := x.Block().Preds[i]
+			if !c01LenGuard(pred, m, true) && !c01LenGuard(ed.(ssa.Instruction).Block(), m, true) {
+				return false
+			}
+			elem = true
+		}
+		return zero && elem
+	case *ssa.Call:
+		g := x.Common().StaticCallee()
+		if g == nil || g.Blocks == nil || len(g.Params) != 1 || len(x.Common().Args) != 1 || x.Common().Args[0] != m {
+			return false
+		}
+		if fn := x.Parent(); fn == nil || g.Pkg != fn.Pkg {
+			return false
+		}
+		rets := returnsOf(g)
+		if len(rets) == 0 {
+			return false
+		}
+		sawElem := false
+		for _, ret := range rets {
+			if len(ret.Results) != 1 {
+				return false
+			}
+			rv := ret.Results[0]
+			switch {
+			case c01IsPhiTotalEnd(rv, g.Params[0]):
+				sawElem = true
+			case c01xIsConst(rv, 0) && c01LenGuard(ret.Block(), g.Params[0], false):
+			case c01LastEnd(rv, g.Params[0]) && (c01LenGuard(ret.Block(), g.Params[0], true) || c01LenGuard(rv.(ssa.Instruction).Block(), g.Params[0], true)):
+				sawElem = true
+			default:
+				return false
+			}
+		}
+		return sawElem
+	}
+	return false
+}
+
+func c01IsPhiTotalEnd(v ssa.Value, m ssa.Value) bool {
+	ph, ok := v.(*ssa.Phi)
+	return ok && c01TotalEnd(ph, m)
+}
+
+// c01FindTotalEnd returns the values of fn that are the total end of its receiver.
 func c01FindTotalEnd(fn *ssa.Function) []ssa.Value {
 	var out []ssa.Value
 	if len(fn.Params) == 0 {
 		return nil
 	}
 	fw.EachInstr(fn, func(ins ssa.Instruction) {
-		if ph, ok := ins.(*ssa.Phi); ok && c01TotalEnd(ph, fn.Params[0]) {
-			out = append(out, ph)
+		switch x := ins.(type) {
+		case *ssa.Phi:
+			if c01TotalEnd(x, fn.Params[0]) {
+				out = append(out, x)
+			}
+		case *ssa.Call:
+			if c01TotalEnd(x, fn.Params[0]) {
+				out = append(out, x)
+			}
 		}
 	})
 	return out
